@@ -1,7 +1,7 @@
 (* Extract/Main_c04.v — request handler of the C04 binary (ocaml/pv_c04).
 
    (legal VERSION app|sig (msel (SIG SELECTOR) ...) TEXT)
-        VERSION decimal; SIG a string; SELECTOR xHEX (4 bytes); TEXT the TEAL text (string or xHEX of its UTF-8)
+        VERSION decimal; SIG a string; SELECTOR xHEX (4 bytes); TEXT the TEAL text: (lines "l1" "l2" ...) (joined with LF), or one string
      -> (ok)
       | (bad KIND PC DETAIL)          first failure, PC = instruction index (0 where not applicable)
       | (uncovered KIND PC DETAIL)    the decision needs a langspec row marked Unknown
@@ -16,10 +16,15 @@ Local Open Scope string_scope.
 
 Definition err (m : string) : sexp := SList [Atom "error"; Str m].
 
+(* The text travels as a list of its lines: Base/Sexp.v reverses every token with the quadratic
+   List.rev, so one 50 kB string token would cost seconds; [w_text] joins the lines with LF again. *)
+Definition nl : string := String (ascii_of_N 10) EmptyString.
+
 Definition w_text (e : sexp) : option string :=
   match e with
   | Str s => Some s
   | Atom a => option_map string_of_bytes (w_hex a)
+  | SList (Atom "lines" :: ls) => option_map (concat_sep nl) (w_list w_string ls)
   | _ => None
   end.
 
